@@ -88,10 +88,11 @@ function get() return cnt:get() end
 function default() end
 function check_delegation(fname, ...) return true end
 function fd(k) m[k] = 7 end
-abi.register(inc, pay, payfail, fail, guarded, nested, nestfail, fd)
+function fdfail(k) m[k] = 8; error("fee delegated call fails") end
+abi.register(inc, pay, payfail, fail, guarded, nested, nestfail, fd, fdfail)
 abi.register_view(get)
 abi.payable(default, pay, nested, constructor)
-abi.fee_delegation(fd)
+abi.fee_delegation(fd, fdfail)
 `
 
 // Next returns the next nonce to use for account i assuming all earlier generated txs of this
@@ -111,7 +112,7 @@ func (g *Gen) Block(no uint64, n int) []*GTx {
 	if len(kinds) == 0 {
 		kinds = []string{"xfer", "xfer", "xfer", "xfer-new", "xfer-self", "xfer-zero", "xfer-poor", "xfer-all", "badnonce-low", "badnonce-gap",
 			"stake", "stake-small", "unstake", "votebp", "votebp-nostake", "votedao", "name", "name-dup", "name-update", "xfer-name",
-			"deploy", "call-inc", "call-pay", "call-payfail", "call-fail", "call-guarded", "call-nested", "call-nestfail", "call-default", "feedeleg", "gov-bad", "setowner"}
+			"deploy", "call-inc", "call-pay", "call-payfail", "call-fail", "call-guarded", "call-nested", "call-nestfail", "call-default", "feedeleg", "feedeleg-fail", "gov-bad", "setowner"}
 	}
 	blocked := map[int]bool{}
 	tries := 0
@@ -300,7 +301,7 @@ func (g *Gen) Block(no uint64, n int) []*GTx {
 			tx := sp.Build()
 			out = append(out, &GTx{Desc: desc, Kind: k, From: i, Expect: exp, Tx: tx})
 			continue
-		case "call-inc", "call-pay", "call-payfail", "call-fail", "call-guarded", "call-nested", "call-nestfail", "call-default", "feedeleg":
+		case "call-inc", "call-pay", "call-payfail", "call-fail", "call-guarded", "call-nested", "call-nestfail", "call-default", "feedeleg", "feedeleg-fail":
 			if len(g.Contracts) == 0 {
 				continue
 			}
@@ -334,6 +335,13 @@ func (g *Gen) Block(no uint64, n int) []*GTx {
 				exp = "fail"
 			case "call-default":
 				sp.Type, sp.Amount, sp.Payload = types.TxType_TRANSFER, big.NewInt(int64(1+g.R.Intn(5000))), nil
+			case "feedeleg-fail":
+				if ver < 2 {
+					continue
+				}
+				sp.Type = types.TxType_FEEDELEGATION
+				sp.Payload = []byte(fmt.Sprintf(`{"Name":"fdfail","Args":["f%d"]}`, g.R.Intn(3)))
+				exp = "maybe"
 			case "feedeleg":
 				if ver < 2 {
 					continue
